@@ -237,6 +237,16 @@ def rule_A6c(tree: Tree) -> RuleResult:
                 got.add((dotted(x.left) or "").split(".")[-1])
         if got == {"sport", "dport"} and len(terms) == 2:
             ok = True
+    if not ok:
+        # the same gate written as a guard clause / by De Morgan: decide by implication between the path condition of the construction and the port test
+        from .guards import formula_of, implies
+        conj = ["and"]
+        for b, lab in cfg.conditions_at(nid):
+            bn = cfg.nodes[b]
+            if bn.kind in ("if", "while") and "server_ports" in src(bn.ast.test, 300):
+                conj.append(formula_of(bn.ast.test, lab == "T"))
+        want_f = formula_of(ast.parse("packet.dport in server_ports or packet.sport in server_ports", mode="eval").body, True)
+        ok = len(conj) > 1 and bool(implies(conj, want_f)) and bool(implies(want_f, conj))
     r.ob(ok, Finding("A6c", "main:handle_packet:session-creation-gate",
                      "Session(...) must be constructed only under `packet.dport in server_ports or packet.sport in server_ports`", f.module.line(call)))
     # the list handed to Session is the same list that is tested
